@@ -17,17 +17,28 @@ theorem Emu.flushAll_eq (e : Emu) :
 /-- the thread's channels show its logical state; `cpu` is set exactly in the four live states -/
 structure ThreadOK (ncpu g : Nat) (t : Thread) : Prop where
   gidx : t.gindex = g
-  chState : ChanOK t.chState (.int t.state.code) false
+  chState : ChanOK t.chState (stateVal t.state) false
   chTid : ChanOK t.chTid (tidVal t.state t.tid) true
   chCpu : ChanOK t.chCpu (cpuVal t.cpu) false
   cpuIff : t.cpu = none ↔ (t.state = .unknown ∨ t.state = .dead)
   cpuLt : ∀ ci, t.cpu = some ci → ci < ncpu
   inCpu : t.outOfCpu = false
 
+/-- the running-threads channel holds the count; before the first `cpu_update` of the CPU it is
+    still empty (Paraver shows 0 in both cases) -/
+def NrunVal (w : Value) (n : Nat) : Prop := w = .int n ∨ (w = .null ∧ n = 0)
+
 /-- the CPU's five channels hold the values `cpu_update` derives from the thread list `b` -/
 def CpuValsOK (c : Cpu) (b : List Thread) : Prop :=
-  CpuChansOK c (.int (runOf b).length) (uniq (runOf b) (·.pid)) (uniq (runOf b) (·.tid))
-    (uniq (runOf b) (fun t => (t.gindex : Int))) (uniq (actOf b) (fun t => (t.gindex : Int)))
+  ∃ vn, CpuChansOK c vn (uniq (runOf b) (·.pid)) (uniq (runOf b) (·.tid))
+    (uniq (runOf b) (fun t => (t.gindex : Int))) (uniq (actOf b) (fun t => (t.gindex : Int))) ∧
+    NrunVal vn (runOf b).length
+
+/-- all five channels of the CPU are flushed single `IGNORE_DUP` channels -/
+def CpuClean (c : Cpu) : Prop := ∃ vn vp vt vr va, CpuChansOK c vn vp vt vr va
+
+theorem CpuValsOK.clean {c : Cpu} {b : List Thread} (h : CpuValsOK c b) : CpuClean c := by
+  obtain ⟨vn, h, _⟩ := h; exact ⟨_, _, _, _, _, h⟩
 
 structure CpuOK (ths : List Thread) (g : Nat) (c : Cpu) : Prop where
   gidx : c.gindex = g
@@ -46,11 +57,13 @@ theorem ThreadOK.flush {n g : Nat} {t : Thread} (h : ThreadOK n g t) : ThreadOK 
 
 theorem CpuChansOK.withVals_flush {c : Cpu} {vn vp vt vr va : Value} (h : CpuChansOK c vn vp vt vr va)
     (b : List Thread) : CpuValsOK (c.withVals b).flush b :=
-  { nrun := h.nrun.setv_flush _, pid := h.pid.setv_flush _, tid := h.tid.setv_flush _,
-    thrun := h.thrun.setv_flush _, thact := h.thact.setv_flush _ }
+  ⟨_, { nrun := h.nrun.setv_flush _, pid := h.pid.setv_flush _, tid := h.tid.setv_flush _,
+        thrun := h.thrun.setv_flush _, thact := h.thact.setv_flush _ }, Or.inl rfl⟩
 
-theorem CpuValsOK.flush {c : Cpu} {b : List Thread} (h : CpuValsOK c b) : CpuValsOK c.flush b :=
-  { nrun := h.nrun.flush, pid := h.pid.flush, tid := h.tid.flush, thrun := h.thrun.flush, thact := h.thact.flush }
+theorem CpuValsOK.flush {c : Cpu} {b : List Thread} (h : CpuValsOK c b) : CpuValsOK c.flush b := by
+  obtain ⟨vn, h, hn⟩ := h
+  exact ⟨vn, { nrun := h.nrun.flush, pid := h.pid.flush, tid := h.tid.flush, thrun := h.thrun.flush,
+               thact := h.thact.flush }, hn⟩
 
 theorem CpuOK.flush {ths : List Thread} {g : Nat} {c : Cpu} (h : CpuOK ths g c) : CpuOK ths g c.flush :=
   { gidx := h.gidx, mem := h.mem, vals := h.vals.flush, phys := h.phys }
@@ -106,18 +119,15 @@ theorem WF.assemble (e : Emu) (ths' : List Thread) (cpus' : List Cpu)
 
 /-! ### one CPU after `cpu_update`, and the CPUs a step does not touch -/
 
-theorem CpuValsOK.chans {c : Cpu} {b : List Thread} (h : CpuValsOK c b) :
-    CpuChansOK c (.int (runOf b).length) (uniq (runOf b) (·.pid)) (uniq (runOf b) (·.tid))
-      (uniq (runOf b) (fun t => (t.gindex : Int))) (uniq (actOf b) (fun t => (t.gindex : Int))) := h
-
 /-- `cpu_update` on list `c.threads`, evaluated against thread table `ths`, leaves the CPU
     well-formed w.r.t. the final thread table `ths2` -/
-theorem cpuOK_after_update {c : Cpu} {vn vp vt vr va : Value} (hch : CpuChansOK c vn vp vt vr va)
+theorem cpuOK_after_update {c : Cpu} (hcl : CpuClean c)
     {ths ths2 : List Thread} {g : Nat} (hg : c.gindex = g)
     (hagree : ∀ i ∈ c.threads, (ths[i]?).map Thread.key = (ths2[i]?).map Thread.key)
     (hm : Membership ths2 g c.threads)
     (hphys : c.virt = false → (runOf (boundOf ths c.threads)).length ≤ 1) :
     CpuOK ths2 g (c.withVals (boundOf ths c.threads)).flush := by
+  obtain ⟨vn, vp, vt, vr, va, hch⟩ := hcl
   refine ⟨hg, hm, ?_, fun hv => ?_⟩
   · rw [withVals_spec c hagree hm]; exact hch.withVals_flush _
   · rw [← runOf_length_spec hagree hm]; exact hphys hv
@@ -163,15 +173,16 @@ def Emu.updCpu (e : Emu) (ci : Nat) (c : Cpu) (l : List Nat) : Emu :=
 def overGuard (ths : List Thread) (l : List Nat) (virt : Bool) : Bool :=
   decide ((runOf (boundOf ths l)).length > 1) && !virt
 
-theorem cpuUpdateList_eq {c : Cpu} {vn vp vt vr va : Value} (h : CpuChansOK c vn vp vt vr va)
+theorem cpuUpdateList_eq {c : Cpu} (hcl : CpuClean c)
     (ths : List Thread) (l : List Nat) :
     cpuUpdate ths { c with threads := l } =
       if overGuard ths l c.virt then .error .oversub
-      else .ok (({ c with threads := l } : Cpu).withVals (boundOf ths l)) :=
-  cpuUpdate_eq (c := { c with threads := l }) ⟨h.nrun, h.pid, h.tid, h.thrun, h.thact⟩ ths
+      else .ok (({ c with threads := l } : Cpu).withVals (boundOf ths l)) := by
+  obtain ⟨vn, vp, vt, vr, va, h⟩ := hcl
+  exact cpuUpdate_eq (c := { c with threads := l }) ⟨h.nrun, h.pid, h.tid, h.thrun, h.thact⟩ ths
 
-theorem cpuRefresh_eq {e : Emu} {ci : Nat} {c : Cpu} {vn vp vt vr va : Value}
-    (hc : e.cpus[ci]? = some c) (hg : c.gindex = ci) (h : CpuChansOK c vn vp vt vr va) :
+theorem cpuRefresh_eq {e : Emu} {ci : Nat} {c : Cpu}
+    (hc : e.cpus[ci]? = some c) (hg : c.gindex = ci) (h : CpuClean c) :
     cpuRefresh e ci =
       if overGuard e.threads c.threads c.virt then .error .oversub
       else .ok (e.updCpu ci c c.threads) := by
@@ -187,8 +198,8 @@ theorem cpuRefresh_eq {e : Emu} {ci : Nat} {c : Cpu} {vn vp vt vr va : Value}
     unfold Emu.setCpu Emu.updCpu
     simp only [Cpu.withVals, hg]
 
-theorem cpuAddThread_eq {e : Emu} {ci : Nat} {c : Cpu} {vn vp vt vr va : Value}
-    (hc : e.cpus[ci]? = some c) (hg : c.gindex = ci) (h : CpuChansOK c vn vp vt vr va) (ti : Nat) :
+theorem cpuAddThread_eq {e : Emu} {ci : Nat} {c : Cpu}
+    (hc : e.cpus[ci]? = some c) (hg : c.gindex = ci) (h : CpuClean c) (ti : Nat) :
     cpuAddThread e ci ti =
       if c.threads.contains ti then .error .cpuList
       else if overGuard e.threads (c.threads ++ [ti]) c.virt then .error .oversub
@@ -207,8 +218,8 @@ theorem cpuAddThread_eq {e : Emu} {ci : Nat} {c : Cpu} {vn vp vt vr va : Value}
       unfold Emu.setCpu Emu.updCpu
       simp only [Cpu.withVals, hg]
 
-theorem cpuRemoveThread_eq {e : Emu} {ci : Nat} {c : Cpu} {vn vp vt vr va : Value}
-    (hc : e.cpus[ci]? = some c) (hg : c.gindex = ci) (h : CpuChansOK c vn vp vt vr va) (ti : Nat) :
+theorem cpuRemoveThread_eq {e : Emu} {ci : Nat} {c : Cpu}
+    (hc : e.cpus[ci]? = some c) (hg : c.gindex = ci) (h : CpuClean c) (ti : Nat) :
     cpuRemoveThread e ci ti =
       if !c.threads.contains ti then .error .cpuList
       else if overGuard e.threads (c.threads.erase ti) c.virt then .error .oversub
